@@ -6,7 +6,9 @@ export OCAMLRUNPARAM="${OCAMLRUNPARAM:-s=4M,i=256M}"
 cd "$HERE"
 PYTHONPATH="$HERE/tools" python3 -c "import vlib; vlib.gen_coqproject()"
 cd "$HERE/coq"
-timeout 3400 make -j6 > "$HERE/.setup_make.log" 2>&1 || { tail -60 "$HERE/.setup_make.log"; echo "setup: make failed"; exit 1; }
+# build the dependency cone of every claimed property (files of properties still under construction are not built)
+TARGETS=$(python3 -c "import json; print(' '.join('theories/Props/%s.vo' % c['property_id'] for c in json.load(open('$HERE/MANIFEST.json'))['checks']))")
+timeout 3400 make -j6 $TARGETS > "$HERE/.setup_make.log" 2>&1 || { tail -60 "$HERE/.setup_make.log"; echo "setup: make failed"; exit 1; }
 cd "$HERE"
 mkdir -p evidence replays
 if command -v python3-vt >/dev/null; then
